@@ -6,7 +6,7 @@ from coqrun import pb, tx
 from gen.util import ASCII_WS, NOT_WS, UNICODE_WS, cli_vs_model, rbytes, short
 
 NEEDS = dict(cli=True, harness=False, shim=False, release=False)
-RULE = ("long texts with single- and multi-byte white space at every byte offset around 2^9..2^16 and periodically; hex encode: every single byte value, every length 0..300 then steps to 4096, random contents; "
+RULE = ("malformed inputs whose first defect comes after 2 KiB..64 KiB of well-formed bytes; long texts with single- and multi-byte white space at every byte offset around 2^9..2^16 and periodically; hex encode: every single byte value, every length 0..300 then steps to 4096, random contents; "
         "hex decode: each of those re-spelled with random case / optional 0x / ASCII white space anywhere (must agree), "
         "Unicode white space (may refuse), plus malformed inputs (odd digit count, non-hex characters, double prefix, "
         "invalid UTF-8); a case is non-trivial and distinct by its (class, input bytes)")
@@ -144,6 +144,13 @@ def run(ctx):
            "ＡＢ", "0x" + "0" * 4095, "0x" + "f" * 8191, "+00", "-00", "0x+0", "00 0x", "0x0 x00", "x", "0x0X", "#00", "0h00", "\\x00"]
     for t in mal:
         cases.append((t, None, "must", "malformed/listed"))
+    # the first defect comes late: after 4096, 8192, ... well-formed bytes (nothing may have been written by then)
+    for nb in (2047, 2048, 4095, 4096, 4097, 8192, 12288, 16384, 65536, rng.randrange(4097, 70000)):
+        h = rbytes(rng, nb).hex()
+        for tail, cls in (("g0", "bad-char"), ("0", "odd"), ("0x00", "inner-prefix"), ("é", "non-ascii"), ("0 g", "bad-char-after-space")):
+            cases.append((rng.choice(["0x", ""]) + h + tail, None, "must", "malformed/late-" + cls))
+        k = rng.randrange(2, len(h)) & ~1
+        cases.append(("0x" + h[:k] + "zz" + h[k:], None, "must", "malformed/late-bad-char-in-the-middle"))
     # every ASCII character that is neither a hex digit nor white space, in the high and in the low digit position
     # (and, without the prefix, as the first character), plus a sample of non-ASCII characters
     others = [chr(c) for c in range(128) if chr(c) not in "0123456789abcdefABCDEF" and not chr(c).isspace() and c not in (0x1c, 0x1d, 0x1e, 0x1f)]
